@@ -217,7 +217,7 @@ Qed.
 
 (* two configurations that differ only in their arm tables *)
 Definition with_arms (cfg : dcfg) (a : list (N * N)) : dcfg :=
-  {| d_arms := a; d_cache := d_cache cfg; d_inflate := d_inflate cfg; d_float_text := d_float_text cfg;
+  {| d_arms := a; d_cache := d_cache cfg; d_refs := d_refs cfg; d_inflate := d_inflate cfg; d_float_text := d_float_text cfg;
      d_kcmp := d_kcmp cfg; d_kinsert := d_kinsert cfg; d_extra_fuel := d_extra_fuel cfg |}.
 
 Definition arms_sub (a b : list (N * N)) : Prop := forall tag pid, assoc tag a = Some pid -> assoc tag b = Some pid.
